@@ -116,6 +116,39 @@ def matmulCsr [Add R] [Mul R] [OfNat R 0] (a b : CSR R) (scale : R) : CSR R :=
       compress ((a.r.getD i []).flatMap fun p1 =>
         (b.r.getD p1.1 []).map fun p2 => (p2.1, scale * (p1.2 * p2.2))) }
 
+/-! ### `matmul_csr_dense_dense`: CSR @ Dense accumulated into a Dense, every combination of memory orders -/
+section csrDense
+variable {R : Type} [Add R] [Mul R] [OfNat R 0]
+
+/-- `Dense.reorder()`: the same matrix in the other memory order -/
+def Dense.reorder (d : Dense R) : Dense R := Dense.ofFn d.rows d.cols (!d.fortran) d.abs
+
+/-- Σ over the stored entries of a CSR row of `value · vec[column]` (`_matmul_csr_vector` for one row) -/
+def rowDot (row : Row R) (vec : Nat → R) : R := (row.map fun p => p.2 * vec p.1).foldl (· + ·) 0
+
+/-- the two loops of `matmul_csr_dense_dense` once `right` and `out` have the same memory order -/
+def csrDenseCore (a : CSR R) (b out : Dense R) (s : R) : Dense R :=
+  if b.fortran then
+    -- one `_matmul_csr_vector` per column j: out[j·nrows + row] += scale · Σ_ptr data[ptr] · right[j·right.rows + col[ptr]]
+    { out with data := fun p => if p < a.rows * b.cols then
+        out.data p + s * rowDot (a.r.getD (p % a.rows) []) (fun k => b.data (p / a.rows * b.rows + k)) else out.data p }
+  else
+    -- row by row: out[row·ncols + j] += (scale · data[ptr]) · right[col[ptr]·ncols + j]
+    { out with data := fun p => if p < a.rows * b.cols then
+        out.data p + rowDot ((a.r.getD (p / b.cols) []).map fun q => (q.1, s * q.2)) (fun k => b.data (k * b.cols + p % b.cols))
+      else out.data p }
+
+/-- `matmul_csr_dense_dense(left, right, scale, out)`: when the memory orders of `right` and `out` differ, either `right`
+is reordered (C-ordered right), or the result is accumulated in a reordered copy of `out` and copied back in the caller's
+order (Fortran-ordered right) -/
+def matmulCsrDense (a : CSR R) (b out : Dense R) (s : R) : Dense R :=
+  if b.fortran == out.fortran then csrDenseCore a b out s
+  else if b.fortran then
+    let tmp := (csrDenseCore a b out.reorder s).reorder
+    { out with data := fun p => if p < a.rows * b.cols then tmp.data p else out.data p }
+  else csrDenseCore a b.reorder out s
+end csrDense
+
 /-! ### Dia: (offset, values indexed by column) -/
 structure Dia (R : Type) where
   rows : Nat
